@@ -58,14 +58,16 @@ def disc_named():
 # ------------------------------------------------------------------------------- table 2
 
 class _FakeSock(object):
-    def __init__(self, fail_from):
-        self.fail_from, self.attempt, self.cur = fail_from, 0, None
+    def __init__(self, fail_from, fails=None):
+        self.fail_from, self.fails, self.attempt, self.cur = fail_from, fails, 0, None
 
     def begin(self):                 # a `_write_packet` call starts (early outgoing listener)
         self.cur = self.attempt
         self.attempt += 1
 
     def failing(self, k):
+        if self.fails is not None:
+            return bool(self.fails(k))
         return self.fail_from is not None and k >= self.fail_from
 
     def send(self, data):
@@ -104,8 +106,38 @@ def _ev_term(e):
     return '.disconnect'
 
 
-def observe(version, fail_from, evs):
-    """Run the real networking thread body on `evs`; returns (newer, result dict)."""
+def _run_with_caps(C, capw, capr):
+    """`NetworkingThread._run` re-compiled IN MEMORY with the literals 300/50 replaced (used only by
+    the correspondence check for small caps, never by `generate()`)."""
+    import inspect
+    import textwrap
+    src = textwrap.dedent(inspect.getsource(C.NetworkingThread._run))
+    assert '>= 300' in src and '< 50 ' in src, 'the cap literals of _run have moved'
+    src = src.replace('>= 300', '>= %d' % capw).replace('< 50 ', '< %d ' % capr)
+    ns = {}
+    exec(compile(src, '<_run caps %d/%d>' % (capw, capr), 'exec'), C.__dict__, ns)
+    return ns['_run']
+
+
+def driver_reply(res):
+    """The reply `playerr.run` must give for an observation `res` of `observe`."""
+    def sh(t):
+        f = t.replace('(', '').replace(')', '').split()
+        if f[0] == '.keepAlive':
+            return 'ka:' + f[1]
+        if f[0] == '.teleportConfirm':
+            return 'tc:' + f[1]
+        return 'pe:%s:%s:%s:%s:%s:%d' % (f[1], f[2], f[3], f[4], f[5], f[6] == 'true')
+    j = lambda l: ','.join(sh(t) for t in l) or '-'
+    return 'ok wire=%s lost=%s unsent=%s delivered=%d spawned=%d closed=%d exit=%d errors=%d' % (
+        j(res['wire']), j(res['lost']), j(res['unsent']), len(res['delivered']), res['spawned'],
+        res['closed'], res['exitCalls'], res['errors'])
+
+
+def observe(version, fail_from, evs, fails=None, caps=None):
+    """Run the real networking thread body on `evs`; returns (newer, result dict).
+    `fails` (a predicate on the write number) overrides `fail_from`; `caps=(capw, capr)` runs a copy
+    of `_run` with other cap literals (correspondence check only)."""
     _minecraft()
     import minecraft.networking.connection as C
     from minecraft.networking.packets import Packet, clientbound as cb, serverbound as sb
@@ -114,7 +146,7 @@ def observe(version, fail_from, evs):
                         handle_exception=lambda e, i: calls.append(('exc', type(e).__name__)),
                         handle_exit=lambda: calls.append(('exit',)))
     conn.context.protocol_version = version
-    sock = _FakeSock(fail_from)
+    sock = _FakeSock(fail_from, fails)
     conn.socket, conn.file_object = sock, _FakeFile()
     conn._outgoing_packet_queue = collections.deque()
     conn.connected = True
@@ -176,6 +208,8 @@ def observe(version, fail_from, evs):
             th.interrupt = True          # quiescent: the real thread would idle in select()
         return None
     conn.reactor.read_packet = read_packet
+    if caps is not None:
+        th._run = _run_with_caps(C, *caps).__get__(th)
     th.run()                             # the real NetworkingThread.run, in this thread
     ok = [p for k, p in enumerate(popped) if not sock.failing(k)]
     assert [id(p) for p in ok] == [id(p) for p in wire], 'wire is not the successful writes'
